@@ -158,6 +158,19 @@ def rewrites_of(prog):
             pass
 
 
+def rewrites_of_keep(prog):
+    """rewrites of a program that already carries user functions: the function declarations are kept"""
+    for kind, rw in rewrites_of(Prog(prog.main)):
+        if isinstance(rw, Prog):
+            rw.funcs = list(prog.funcs) + [x for x in rw.funcs if x not in prog.funcs]
+            # a second function must not reuse the first one's name
+            if any(x.startswith("let f1 ") or "let f1 " in x for x in prog.funcs) and kind.startswith("func"):
+                continue
+            yield kind, rw
+        elif not prog.funcs:
+            yield kind, rw
+
+
 def t_filter_and(f):
     i = f.ints()
     if len(i) < 2:
@@ -212,9 +225,16 @@ def family_c06(tier, seed):
         names = ["derive_lit", "filter_and", "filter_halfopen", "derive_halfopen", "sort_asc", "take_n", "group_agg", "join_inner", "win_sum", "select_2", "agg", "group_take", "distinct", "derive_mix", "take_range"]
         bases += [b for b in enumerate_family(3, heads=("sel",), alphabet=alpha, only_names=names) if b[0].count(">") == 2]
     out = []
+    rnd2 = random.Random(seed + 7)
     for tag, prog in bases:
         for kind, rw in rewrites_of(prog):
             out.append((f"{tag}|{kind}", (prog, rw, kind)))
+            # compositions: a second rewrite of a different kind applied to the rewritten program (DSL-level rewrites
+            # only; let-style rewrites are applied last because they rename the prefix)
+            if tier == "thorough" and isinstance(rw, Prog) and not rw.lets and not rw.into and rnd2.random() < 0.08:
+                for kind2, rw2 in rewrites_of_keep(rw):
+                    if kind2.split("@")[0] != kind.split("@")[0]:
+                        out.append((f"{tag}|{kind}+{kind2}", (prog, rw2, f"{kind.split('@')[0]}+{kind2}")))
     if tier == "quick":
         rnd = random.Random(seed)
         rnd.shuffle(out)
